@@ -201,7 +201,9 @@ func TestC17(t *testing.T) {
 			if j.interloper {
 				// the client of this connection is waiting for the server's answer: nobody else
 				// touches the spec right now
-				buildHello(&tls.Config{ServerName: "other.example.test", OmitEmptyPsk: true}, j.t.ClientID(), j.t.Prepare())
+				if _, other, err, pn := buildHello(&tls.Config{ServerName: "other.example.test", OmitEmptyPsk: true}, j.t.ClientID(), j.t.Prepare()); err == nil && pn == "" && other != nil {
+					other.SetSNI("intruder.example.test") // the other connection's own business
+				}
 			}
 			changed := false
 			if cookie != nil {
